@@ -443,7 +443,9 @@ def render_fn(repo, blk, tmpl_line):
         info['rules']['X2'] = fired
     if blk.x5 is not None:
         text, k = apply_x5(text)
-        if k != blk.x5:
+        # the recorded count documents the tree the unit was written against; the rule itself is the same for any number
+        # of `if _sync` sites (each keeps its sync branch), so a different non-zero count is not an extraction failure
+        if k == 0 and blk.x5 != 0:
             raise ExtractError('%s::%s: rule X5 fired %d times, unit records %d' % (blk.file, blk.name, k, blk.x5))
         info['rules']['X5'] = k
     for (feat, on) in blk.cfgs:
